@@ -4,6 +4,7 @@ usage: coded_driver.py <dir containing package rt (copy of static_files)>   ; ca
   out <bufsize> <op>...           ops: e:<n> n:<b> v:<n> s:<z> f<k>:<n> B:<hex|-> D:<hex|-> F C
 """
 import io
+import signal
 import struct
 import sys
 
@@ -11,6 +12,18 @@ sys.path.insert(0, sys.argv[1])
 from rt import _binary as b  # noqa: E402
 
 FMT = {1: struct.Struct("<B"), 2: struct.Struct("<H"), 4: struct.Struct("<I"), 8: struct.Struct("<Q")}
+
+
+class Hang(BaseException):
+    pass
+
+
+def on_alarm(signum, frame):
+    raise Hang()
+
+
+signal.signal(signal.SIGALRM, on_alarm)
+CASE_SECONDS = [2.0]   # a case takes microseconds; a reader that spins on a truncated input is reported as HANG
 
 
 def unhex(h):
@@ -43,6 +56,7 @@ for line in sys.stdin:
     out = []
     if kind == "in":
         s = b.CodedInputStream(io.BytesIO(unhex(t[2])), buffer_size=bufsize)
+        signal.setitimer(signal.ITIMER_REAL, CASE_SECONDS[0])
         try:
             for op in t[3:]:
                 if op == "b":
@@ -57,8 +71,13 @@ for line in sys.stdin:
                     out.append("h:" + (bytes(s.read_bytearray(int(op[1:]))).hex() or "-"))
         except EOFError:
             out.append("EOF")
+        except Hang:
+            out.append("ERR:HANG")
+            CASE_SECONDS[0] = max(0.05, CASE_SECONDS[0] / 2)   # keep a run with many spinning cases short
         except Exception as ex:  # noqa: BLE001
             out.append("ERR:" + type(ex).__name__)
+        finally:
+            signal.setitimer(signal.ITIMER_REAL, 0)
         print(" ".join(out))
     else:
         rec = Rec()
